@@ -5318,3 +5318,52 @@ func ruleFanModeLocal(w *World, r *Report) {
 		r.ok("FAN-MODE-LOCAL", key, w.PosOf(gos[0]), itoa(n)+" branch(es) lead to the concurrent execution, none depends on a loop-carried value")
 	}
 }
+
+// WHEN-AGREE (C01, C04): the index, the linear scan and the dispatcher read a `when` the same way.
+func ruleWhenAgree(prop string) ruleFn {
+	return func(w *World, r *Report) {
+		r.Rule("WHEN-AGREE", "premise: core.GetRulePatterns, which produces the pattern a rule is indexed under, takes a `when` that has no \"pattern\" property for the pattern itself (checked: it tests the key \"pattern\" and has a branch for its absence).  Conclusion: the parsed rule does the same — the type of Rule.When has an UnmarshalJSON that looks at the key \"pattern\", so that the pattern FindRules.Do matches against the event (Rule.When.Pattern) is the one the rule was found by.  With the default decoding such a `when` yields a nil Pattern, which matches every event and binds nothing: the rule's actions run without their variables, and for events that its `when` does not match", 1)
+		grp := w.Func("core", "GetRulePatterns")
+		looksAtPattern := func(fn *ssa.Function) bool {
+			found := false
+			withAnon(fn, func(g *ssa.Function) {
+				allInstrs(g, func(in ssa.Instruction) {
+					if lk, ok := in.(*ssa.Lookup); ok {
+						if k, isC := constKey(lk.Index); isC && k == "pattern" {
+							found = true
+						}
+					}
+				})
+			})
+			return found
+		}
+		if !looksAtPattern(grp) {
+			r.exempt("WHEN-AGREE", "premise", w.Pos(grp.Pos()), "premise fails: GetRulePatterns does not test the key \"pattern\"; nothing to agree with")
+			return
+		}
+		// the type of Rule.When
+		ruleT := structOf(w.Named("core", "Rule"))
+		var whenT *types.Named
+		if ruleT != nil {
+			for i := 0; i < ruleT.NumFields(); i++ {
+				if f := ruleT.Field(i); f.Name() == "When" {
+					whenT = namedOf(f.Type())
+				}
+			}
+		}
+		if whenT == nil {
+			r.exempt("WHEN-AGREE", "field=core.Rule.When", "", "Rule.When not found or not of a named type: not decided")
+			return
+		}
+		key := "type=" + typeKey(whenT)
+		um := w.TryMethod(typeRel(whenT), whenT.Obj().Name(), "UnmarshalJSON")
+		switch {
+		case um == nil:
+			r.violation("WHEN-AGREE", key, w.Pos(whenT.Obj().Pos()), "Rule.When is decoded field by field: a `when` without a \"pattern\" property becomes a nil pattern for the dispatcher, while the index files the rule under the `when` map itself")
+		case !looksAtPattern(um):
+			r.violation("WHEN-AGREE", key, w.Pos(um.Pos()), "the decoder of Rule.When does not look at the key \"pattern\": it cannot take a bare `when` for the pattern as GetRulePatterns does")
+		default:
+			r.ok("WHEN-AGREE", key, w.Pos(um.Pos()), "a bare `when` is decoded as the pattern, as it is indexed")
+		}
+	}
+}
